@@ -550,6 +550,9 @@ func (r *Recomposer) recomp(v any, rv reflect.Value) {
 }
 
 func (r *Recomposer) setValue(v any, rv reflect.Value, sf *reflect.StructField) {
+	if v == nil {
+		return // a null leaves the zero value
+	}
 	switch rv.Kind() {
 	case reflect.Bool:
 		if s, ok := v.(string); ok && sf != nil && strings.Contains(sf.Tag.Get("json"), ",string") {
